@@ -6,6 +6,7 @@ declare_fields("Elem", name=str, type=str)
 XPathMap = Dict[str, Opt[Elem]]
 XNode = Opaque("XNode")
 StrMap = Dict[str, str]
+LangT = Opaque("LangT")      # one language's itext entries (path -> forms), abstract here
 declare_class("Survey", "pyxform.survey.Survey")
 declare_class("Section", "pyxform.section.Section")
 
@@ -13,7 +14,8 @@ declare_class("Section", "pyxform.section.Section")
 SurveyK = Obj("Survey", name=str, _xpath=Opt[XPathMap], attribute=Opt[StrMap], id_string=str, instance_xmlns=Opt[str],
               version=Opt[str], prefix=Opt[str], delimiter=Opt[str], title=str, style=Opt[str],
               submission_url=Opt[str], public_key=Opt[str], auto_send=Opt[str], auto_delete=Opt[str],
-              entity_features=Opt[List[str]], namespaces=Opt[str], default_language=str)
+              entity_features=Opt[List[str]], namespaces=Opt[str], default_language=str,
+              _translations=Dict[str, LangT])
 
 
 @spec
@@ -117,3 +119,122 @@ def _(self: SurveyK, **kwargs: StrMap) -> XNode:
         invariant(result.nodeType == 1 and result.tagName == self.name and result.kids == inst.kids)
         invariant(forall(0, j, lambda q: keys(A)[q] in result.attrs and result.attrs[keys(A)[q]] == A[keys(A)[q]]))
         invariant(forall_str(lambda s: implies(s in result.attrs, s in inst.attrs or s in A)))
+
+
+# ---------------------------------------------------------------- model (C01 skeleton, C11 submission, C19 version)
+
+@spec
+def TransSetup(s: SurveyK, stage: int) -> Dict[str, LangT]:
+    """_translations after _setup_translations (1), _setup_media (2), _add_empty_translations (3): C07/C08 kernels."""
+    uninterpreted()
+
+
+@spec
+def ItextNode(s: SurveyK) -> XNode:
+    uninterpreted()
+
+
+@spec
+def InstanceNodes(s: SurveyK) -> List[XNode]:
+    """Secondary instances (C09 kernel _generate_instances)."""
+    uninterpreted()
+
+
+@spec
+def BindingNodes(s: SurveyK) -> List[XNode]:
+    uninterpreted()
+
+
+@spec
+def ActionNodes(s: SurveyK) -> List[XNode]:
+    uninterpreted()
+
+
+@contract("Survey._setup_translations")
+def _(self: SurveyK) -> None:
+    trusted("builds _translations from labels/hints/media of all elements: contracted in the C07/C08 kernels")
+    mutates(self=replace(self, _translations=TransSetup(self, 1)))
+    may_raise(PyXFormError, when=True)
+
+
+@contract("Survey._setup_media")
+def _(self: SurveyK) -> None:
+    trusted("adds media entries to _translations: contracted in the C07/C08 kernels")
+    mutates(self=replace(self, _translations=TransSetup(self, 2)))
+    may_raise(PyXFormError, when=True)
+
+
+@contract("Survey._add_empty_translations")
+def _(self: SurveyK) -> None:
+    trusted("pads _translations: C07 kernel")
+    mutates(self=replace(self, _translations=TransSetup(self, 3)))
+
+
+@contract("Survey.itext")
+def _(self: SurveyK) -> XNode:
+    trusted("itext block: C07/C08 kernel")
+    ensures(result == ItextNode(self) and result.nodeType == 1 and result.tagName == "itext")
+    may_raise(PyXFormError, when=True)
+
+
+@contract("Survey._generate_instances")
+def _(self: SurveyK) -> List[XNode]:
+    trusted("secondary instances: C09 kernel")
+    ensures(result == InstanceNodes(self))
+    may_raise(PyXFormError, when=True)
+
+
+@contract("Survey.xml_descendent_bindings")
+def _(self: SurveyK) -> List[XNode]:
+    trusted("binds and model-level setvalues of all elements in document order: C05/C10 kernels")
+    ensures(result == BindingNodes(self))
+    may_raise(PyXFormError, when=True)
+
+
+@contract("Survey.xml_actions")
+def _(self: SurveyK) -> List[XNode]:
+    trusted("model-level actions (setgeopoint, recordaudio): C02 kernel")
+    ensures(result == ActionNodes(self))
+
+
+@contract("Survey.xml_model")
+def _(self: SurveyK) -> XNode:
+    properties("C01", "C11", "C19")
+    no_native("needs survey-element objects: exercised through the e2e oracles")
+    may_raise(PyXFormError, when=True)
+    s1 = replace(self, _translations=TransSetup(self, 1))
+    s2 = replace(s1, _translations=TransSetup(s1, 2))
+    s3 = replace(s2, _translations=TransSetup(s2, 3))
+    has_itext = len(s3._translations) > 0
+    has_sub = bool(self.submission_url) or bool(self.public_key) or bool(self.auto_send) or bool(self.auto_delete)
+    o_itext = 1 if has_sub else 0
+    o_prim = o_itext + (1 if has_itext else 0)
+    insts = InstanceNodes(s3)
+    binds = BindingNodes(s3)
+    acts = ActionNodes(s3)
+    ensures(result.nodeType == 1 and result.tagName == "model")
+    # C19: the entities version is declared exactly when the form declares an entity
+    ensures(result.attrs["odk:xforms-version"] == "1.0.0" and "odk:xforms-version" in result.attrs)
+    ensures(("entities:entities-version" in result.attrs) == bool(self.entity_features))
+    # C01: children order — submission?, itext?, primary instance, secondary instances, binds, actions
+    ensures(len(result.kids) == o_prim + 1 + len(insts) + len(binds) + len(acts))
+    ensures(implies(has_itext, result.kids[o_itext] == ItextNode(s3)))
+    ensures(result.kids[o_prim].tagName == "instance" and result.kids[o_prim].nodeType == 1 and len(result.kids[o_prim].attrs) == 0)
+    ensures(len(result.kids[o_prim].kids) == 1 and result.kids[o_prim].kids[0].tagName == self.name
+            and result.kids[o_prim].kids[0].attrs["id"] == self.id_string and "id" in result.kids[o_prim].kids[0].attrs)
+    ensures(forall(0, len(insts), lambda i: result.kids[o_prim + 1 + i] == insts[i]))
+    ensures(forall(0, len(binds), lambda i: result.kids[o_prim + 1 + len(insts) + i] == binds[i]))
+    ensures(forall(0, len(acts), lambda i: result.kids[o_prim + 1 + len(insts) + len(binds) + i] == acts[i]))
+    # C11: the submission element exists iff a submission setting is given, and carries exactly those settings
+    ensures(implies(has_sub, result.kids[0].tagName == "submission" and len(result.kids[0].kids) == 0))
+    ensures(implies(has_sub, ("action" in result.kids[0].attrs) == bool(self.submission_url)
+                    and ("method" in result.kids[0].attrs) == bool(self.submission_url)
+                    and ("base64RsaPublicKey" in result.kids[0].attrs) == bool(self.public_key)
+                    and ("orx:auto-send" in result.kids[0].attrs) == bool(self.auto_send)
+                    and ("orx:auto-delete" in result.kids[0].attrs) == bool(self.auto_delete)))
+    ensures(implies(bool(self.submission_url), result.kids[0].attrs["action"] == self.submission_url and result.kids[0].attrs["method"] == "post"))
+    ensures(implies(bool(self.public_key), result.kids[0].attrs["base64RsaPublicKey"] == self.public_key))
+    ensures(implies(bool(self.auto_send), result.kids[0].attrs["orx:auto-send"] == self.auto_send))
+    ensures(implies(bool(self.auto_delete), result.kids[0].attrs["orx:auto-delete"] == self.auto_delete))
+    ensures(implies(has_sub, len(result.kids[0].attrs) == (2 if bool(self.submission_url) else 0) + (1 if bool(self.public_key) else 0)
+                    + (1 if bool(self.auto_send) else 0) + (1 if bool(self.auto_delete) else 0)))
